@@ -916,7 +916,9 @@ struct TemplateCore {
         const Char_T *var = (content + tag.Offset);
 
         while (loop_tag != nullptr) {
-            if (StringUtils::IsEqual(var, (content + (loop_tag->Offset + loop_tag->ValueOffset)),
+            // A loop without value="..." names nothing (and an empty name would match every variable).
+            if ((loop_tag->ValueLength != 0) &&
+                StringUtils::IsEqual(var, (content + (loop_tag->Offset + loop_tag->ValueOffset)),
                                      loop_tag->ValueLength)) {
                 tag.IDLength = loop_tag->ValueLength;
                 tag.Level    = loop_tag->Level;
